@@ -2,14 +2,18 @@
    implementation returned.  Codes: 0 ok, 1 impl <> model, 2 spec violated. *)
 From Coq Require Import List NArith ZArith Bool String.
 From GQL Require Import Base.Bytes Lang.Location.
+From GQL Require Export Run.ExecRun.
 Import ListNotations.
 Open Scope N_scope.
 
 Inductive c18case :=
 | LocCase (body : string) (position : N) (line : N) (col : Z)
     (* direct call of GetLocation(body, position) *)
-| ErrCase (body : string) (off : N) (line : N) (col : Z).
+| ErrCase (body : string) (off : N) (line : N) (col : Z)
     (* an error reported by an entry point for the token/node at byte offset off *)
+| ExecCase (x : xcase).
+    (* a generated request: every field error's path addresses a null in data, and
+       paths and locations equal those of the execution model (Run/ExecRun.v, kind 18) *)
 
 Definition in_crlf (s : bytes) (position : N) : bool :=
   match position with
@@ -30,10 +34,11 @@ Definition check (c : c18case) : N :=
     else if (l =? ml) && (col =? mc)%Z then 0 else 1
   | ErrCase b off l col =>
     if loc_ok (unhex b) off l col then 0 else 2
+  | ExecCase x => ExecRun.check x
   end.
 
-Fixpoint bad (cs : list (N * c18case)) : list (N * N) :=
+Fixpoint bad18 (cs : list (N * c18case)) : list (N * N) :=
   match cs with
   | [] => []
-  | (id, c) :: r => let v := check c in if v =? 0 then bad r else (id, v) :: bad r
+  | (id, c) :: r => let v := check c in if v =? 0 then bad18 r else (id, v) :: bad18 r
   end.
